@@ -1351,11 +1351,37 @@ func (rc *RegClient) imageImportBlob(ctx context.Context, r ref.Ref, desc descri
 		return nil
 	}
 	// upload blob
-	_, err = rc.BlobPut(ctx, r, desc, trd.tr)
+	er := &tarEntryReader{r: trd.tr}
+	defer er.stop()
+	_, err = rc.BlobPut(ctx, r, desc, er)
 	if err != nil {
 		return err
 	}
 	return nil
+}
+
+// tarEntryReader stops reads of the current tar entry when its handler returns.
+// The http transport may still poll a request body after the response was received,
+// which must not race with or consume bytes from the next entry of the shared tar reader.
+type tarEntryReader struct {
+	mu   sync.Mutex
+	r    io.Reader
+	done bool
+}
+
+func (er *tarEntryReader) Read(p []byte) (int, error) {
+	er.mu.Lock()
+	defer er.mu.Unlock()
+	if er.done {
+		return 0, io.EOF
+	}
+	return er.r.Read(p)
+}
+
+func (er *tarEntryReader) stop() {
+	er.mu.Lock()
+	er.done = true
+	er.mu.Unlock()
 }
 
 // imageImportDockerAddHandler processes tar files generated by docker.
@@ -1404,7 +1430,9 @@ func (rc *RegClient) imageImportDockerAddLayerHandlers(ctx context.Context, r re
 	// add handler for config
 	trd.handlers[filepath.ToSlash(filepath.Clean(trd.dockerManifestList[index].Config))] = func(header *tar.Header, trd *tarReadData) error {
 		// upload blob, digest is unknown
-		d, err := rc.BlobPut(ctx, r, descriptor.Descriptor{Size: header.Size}, trd.tr)
+		er := &tarEntryReader{r: trd.tr}
+		defer er.stop()
+		d, err := rc.BlobPut(ctx, r, descriptor.Descriptor{Size: header.Size}, er)
 		if err != nil {
 			return err
 		}
@@ -1427,7 +1455,9 @@ func (rc *RegClient) imageImportDockerAddLayerHandlers(ctx context.Context, r re
 		func(indexes []int) {
 			trd.handlers[layerFile] = func(header *tar.Header, trd *tarReadData) error {
 				// ensure blob is compressed
-				rdrUC, err := archive.Decompress(trd.tr)
+				er := &tarEntryReader{r: trd.tr}
+				defer er.stop()
+				rdrUC, err := archive.Decompress(er)
 				if err != nil {
 					return err
 				}
